@@ -56,6 +56,12 @@ def read_at(path, off, bgzip):
 def run_case(case):
     from gaftools.cli.sort import run_sort as _rs
 
+    pipeline = False
+    if case.get("tag_with_order_gfa"):
+        r = c09.order_gfa_tagged(case)
+        if r is not None:
+            case = dict(case, gfa=r[0], gaf=r[1], bgzf=None)
+            pipeline = True
     with core.workdir() as d:
         after_failure = len(case["gaf"]) % 4 == 0
         if after_failure:
@@ -97,6 +103,8 @@ def run_case(case):
     cl.append("outind" if case.get("outind") else "default_gsi")
     if after_failure:
         cl.append("after_a_failed_call")
+    if pipeline:
+        cl.append("graph_tagged_by_order_gfa")
     if case["bgzip_out"] and nblocks >= 2:
         cl.append("bgzf_output_blocks>=2")
     if len(case["gaf"]) == 1:
